@@ -4,7 +4,7 @@ import ast
 
 from .. import assemblers as A
 from .. import kernels as K
-from .. import roles, rules
+from .. import guards, roles, rules
 from ..alg import I, INV4PI, Poly, V, cross, dot, vsum
 from ..core import AnalysisError
 from ..src import unparse
@@ -40,6 +40,7 @@ def to_difference_form(v):
 
 def run(ctx):
     rules.potential_kernels(ctx)
+    guards.factory_guards(ctx, "potential")
     reg = K.registries(ctx)["kernel_functions_regular"]
     vals = rules.kernel_specs(ctx, ("laplace", "helmholtz", "modified_helmholtz"), include_singular=False)
     r_tr = ctx.rule("K-TRANSLATION", "Green's function kernels depend on the points only through y - x", 9)
